@@ -25,6 +25,22 @@ prop("C03", True,
      "Trusted: the reference machine psmodel (RESTRICTIONS.md); programs that exceed the reference's step budget are skipped (C11 owns budgets); loop counts 0..3 only.",
      "DESIGN.md section 6 C03")
 
+prop("C01", True,
+     "bounded-exhaustive enumeration of adversarial but syntactically valid inputs on the real readers in crash-contained worker processes (address-space cap, stack cap, progress watchdog)",
+     "Every operator of systemdict and of the CIDInit procedure set is applied to every tuple of <=2 (thorough 3) operands from 26 adversarial operand expressions; every operator pair (triple) after 12 preambles; all byte strings of length <=2 (3) over all 256 bytes and <=4 (5) over 30 lexically significant bytes through the scanner (plain, inside braces, after eexec); all charstrings of <=3 (4) tokens over 38 tokens x 4 subroutine tables; 558 generated fonts with hostile lenIV / wrongly typed or missing entries / hostile seac codes; all 2^16 PFB header byte pairs through type1.Read; AFM line sequences; CMap bodies through ReadCMap. The oracle is: returns, no panic, no fatal runtime error under a 4 GiB / 256 MiB-stack cap, progress within the watchdog. Exhaustive inside these alphabets.",
+     "Inputs outside the alphabets are not reached; 'terminates' means progress within 40-120 s per case; the Go runtime's fatal-error detection and the engine's attribution of dead workers are trusted.",
+     "DESIGN.md section 6 C01")
+prop("C11", True,
+     "cut-point enumeration on the real interpreter: every program of a corpus x every budget N in 1..ops+2, unbudgeted runs of growth shapes, all 2^16 start prefixes",
+     "For 8.8k programs (thorough 60k+): every program shape with <=2 (3) statements over 10 atoms and 14 constructs, <=3 (4) over a reduced alphabet, plus 33 hand-shaped recursion/error-handler programs, the operation count is measured without budget and the program is re-run with every budget N in 1..ops+2: N>=ops must give the identical canonical state, NumOps and error; N<ops must give exactly ErrExecutionLimitExceeded with NumOps<=N+1. 716 growth/recursion shapes are run with no budget and must end with the corresponding stackoverflow/dictstackoverflow/execstackoverflow/limitcheck, never a dead worker. CheckStart is run on all 65,536 two-byte prefixes plus 0/1-byte inputs and continuations. Exhaustive inside the corpus bounds.",
+     "The counter's definition of an operation is the library's own (black box); a bounded overshoot of the operand stack (<=1100 entries) is accepted as 'cut off'; pscmp.Canon trusted for state equality.",
+     "DESIGN.md section 6 C11")
+prop("C16", True,
+     "complete enumeration: all 1,112,064 Unicode scalar values, all table entries, all uni/u name forms in bands (thorough: all 2^24 six-digit values), composites and validity strings over small alphabets, against an independent AGL reference",
+     "FromUnicode/ToUnicode round trip and injectivity over every Unicode scalar value; every entry of glyphlist (incl. the 81 multi-code entries), zapfdingbats and aglfn against an independently parsed copy; all uniXXXX over the BMP with case masks and group combinations, all u-forms with 4-5 digits (thorough: all 6-digit values); all composites of <=3 (4) components from a 24-component pool x 6 suffixes x both dingbats flags; IsValid on all strings of length <=3 (6) over 16 bytes and lengths 0..33. All families exhaustive.",
+     "Trusted: aglref (own parser and own implementation of the AGL algorithm); the compat table in compat.go is taken as the 'documented expansion'; the library's Tcommaaccent/tcommaaccent fix-up (021A/021B) is tolerated as a documented deviation and counted separately.",
+     "DESIGN.md section 6 C16")
+
 def main():
     checks, na = [], []
     props = [json.loads(l) for l in open(os.path.join(ROOT, "properties.jsonl"))]
